@@ -27,11 +27,12 @@ RULE = ('one evaluation = one crash point: a writer process killed immediately b
 SCOPE = {
     'quick': 'configurations file pickle, file json, dir pickle, sqlite file; prior states {} and {a: old, b: keep}; operations set-new, overwrite, '
              'update of two keys, delete, pop, clear, dump from a cache front, merely re-opening; every effect index of each operation (writes: '
-             'also half written)',
+             'also half written); plus: a 300 000-character value stored (new key, existing key) under 6 file-size limits between 12 kB and 292 kB, '
+             'the writer killed by the kernel (SIGXFSZ) inside the write calls of the library / of sqlite\'s commit',
     'thorough': 'as quick plus dir json, dir compressed and a three-key prior state',
 }
 ASSUMPTIONS = ['crash granularity: the Python-level primitive (os.*, file write/close, sqlite execute/commit) plus half-written data; what happens '
-               'inside one system call is the operating system\'s atomicity', 'sqlite\'s own journalling is trusted', 'a killed process loses nothing '
+               'inside one system call is the operating system\'s atomicity', 'sqlite\'s own journalling is trusted (exercised only by the kernel-kill units: 6 places inside the commit of a multi-page value)', 'a killed process loses nothing '
                'that was already handed to the OS (no power-failure model: no fsync reasoning)']
 
 
@@ -69,6 +70,11 @@ def units(tier, seed):
                                  {'op': 'set', 'key': 'n', 'value': 'new', 'before': [{'op': 'popkeys', 'keys': ['a']}]},
                                  {'op': 'popkeys', 'keys': ['a', 'b']}]):
             out.append((cid, 1, pr, 300 + oi, op))
+    # killed by the kernel INSIDE the write calls of one large value (file-size limit, SIGXFSZ): several limits = several places
+    for cid in cids:
+        for oi, key in enumerate(['n', 'a']):
+            out.append((cid, 1, {'a': 'old', 'b': 'keep'}, 400 + oi,
+                        {'op': 'set', 'key': key, 'value': 'v', 'repeat': 300000, 'fsize_limits': [12288, 20480, 65536, 131072, 204800, 299008]}))
     return out
 
 
@@ -120,7 +126,7 @@ def expected_new(prior, op):
             touched.add(_k(kk))
         return new, touched
     if k == 'set':
-        new[_k(op['key'])] = op['value']
+        new[_k(op['key'])] = op['value'] * op.get('repeat', 1)
         touched.add(_k(op['key']))
     elif k in ('update', 'dump'):
         for kk, v in op['items']:
@@ -219,8 +225,48 @@ def _copy(root):
     return dst
 
 
+def run_kernel_kill(unit):
+    cid, pi, prior, oi, op = unit
+    out = {'evaluations': 0, 'distinct': 0, 'violations': [], 'samples': [], 'counters': {'crash_points': 0, 'kernel_kills': 0}}
+    base = None
+    try:
+        base = _prepare(cid, prior)
+        new, touched = expected_new(prior, op)
+        for limit in op['fsize_limits']:
+            r = _copy(base)
+            try:
+                p = child(cid, r, dict({k: v for k, v in op.items() if k != 'fsize_limits'}, fsize=limit), -1)
+                out['evaluations'] += 1
+                out['distinct'] += 1
+                killed = p.returncode == -25        # SIGXFSZ
+                out['counters']['kernel_kills'] += int(killed)
+                out['counters']['crash_points'] += int(killed)
+                # killed, failed with an error, or completed: a new process reads the old or the new contents all the same
+                line = reader(cid, r)
+                why = judge(line, {_k(k): v for k, v in prior.items()}, new, touched)
+                if why:
+                    short = dict(op, value='v*%d' % op['repeat'])
+                    out['violations'].append({'clause': 'recoverable_state_is_old_or_new',
+                                              'klass': '%s set of a large value, writer killed by the kernel inside its write calls' % cid,
+                                              'message': '%s: %r on %r, file-size limit %d (writer exit status %s): %s' % (cid, short, prior, limit, p.returncode, why[:400]),
+                                              'witness': {'unit': list(unit), 'kill': -1, 'half': False, 'fsize': limit}})
+                    break
+            finally:
+                AR.drop_root(r)
+        out['samples'].append({'configuration': cid, 'prior': prior, 'operation': dict(op, value='v*%d' % op['repeat']), 'kernel_kills': out['counters']['kernel_kills']})
+    except Exception:
+        out['violations'].append({'clause': 'harness', 'klass': 'harness crashed on %s %s' % (cid, op['op']), 'message': traceback.format_exc()[-700:],
+                                  'witness': {'unit': list(unit)}})
+    finally:
+        if base:
+            AR.drop_root(base)
+    return out
+
+
 def run_unit(unit):
     cid, pi, prior, oi, op = unit
+    if 'fsize_limits' in op:
+        return run_kernel_kill(unit)
     out = {'evaluations': 0, 'distinct': 0, 'violations': [], 'samples': [], 'counters': {'crash_points': 0}}
     seen = set()
     base = None
@@ -283,6 +329,17 @@ def replay(w):
         return False, 'no replayable crash point recorded: %r' % (w,)
     cid, pi, prior, oi, op = w['unit']
     base = _prepare(cid, prior, dirty=(pi == 'dirty'))
+    if 'fsize' in w:
+        try:
+            new, touched = expected_new(prior, op)
+            p = child(cid, base, dict({k: v for k, v in op.items() if k != 'fsize_limits'}, fsize=w['fsize']), -1)
+            line = reader(cid, base)
+            why = judge(line, {_k(k): v for k, v in prior.items()}, new, touched)
+            txt = '%s: set of a %d-character value on %r with a file-size limit of %d bytes (writer exit status %s); a new process reads: %s' % (
+                cid, op['repeat'], prior, w['fsize'], p.returncode, line[:200])
+            return bool(why), txt + (' -- ' + why[:300] if why else ' -- acceptable')
+        finally:
+            AR.drop_root(base)
     try:
         prior_eff = after_prefix(prior, op)
         new, touched = expected_new(prior_eff, op)
